@@ -198,24 +198,25 @@ Fixpoint exec (p : params) (indent : N) (c : cmd) (s : st) {struct c} : outcome 
   end.
 
 (* ---- colorize(): the tail ---- *)
-(* _trim_result(result, num_chars), on the reversed result.  Second component: a LINEWRAP node lost characters
-   (the real code then writes into the shared class-level node). *)
-Fixpoint trim_rev (num : nat) (rl : list node) : list node * bool :=
+(* _trim_result(result, num_chars), on the reversed result.  `dead`: a LINEWRAP node has already lost its character --
+   the real code writes into the one shared class-level node, so every other occurrence of LINEWRAP in the result is
+   empty from then on (and is popped without using up any of num_chars).  Second component of the result: dead. *)
+Fixpoint trim_rev (num : nat) (dead : bool) (rl : list node) : list node * bool :=
   match num with
-  | O => (rl, false)
+  | O => (rl, dead)
   | S _ =>
     match rl with
-    | [] => ([], false)
+    | [] => ([], dead)
     | n :: rest =>
-      let len := length (ntext n) in
+      let len := if dead && is_linewrap n then O else length (ntext n) in
       match len with
-      | O => trim_rev num rest
+      | O => trim_rev num dead rest
       | S _ =>
         let t := Nat.min num len in
-        let hit := is_linewrap n in
+        let dead' := dead || is_linewrap n in
         if Nat.eqb t len
-        then let '(r, h) := trim_rev (num - t) rest in (r, hit || h)
-        else (Nd (nk n) (firstn (len - t) (ntext n)) :: rest, hit)
+        then trim_rev (num - t) dead' rest
+        else (Nd (nk n) (firstn (len - t) (ntext n)) :: rest, dead')
       end
     end
   end.
@@ -237,7 +238,7 @@ Definition colorize (p : params) (c : cmd) : colorized :=
     else
       let rl := rev (res s) in
       let rl1 := match rl with n :: rest => if is_linewrap n then rest else rl | [] => rl end in
-      let '(rl2, hit) := trim_rev 3 rl1 in
+      let '(rl2, hit) := trim_rev 3 false rl1 in
       let ns := rev rl2 in
       Col ((if hit then blank_linewraps ns else ns) ++ [ELLIPSIS]) false hit fuel_ok
   end.
